@@ -49,7 +49,21 @@ CHECKS = {
    technique="property-based testing (Hypothesis @given): generated fake solver states x generated And/Or/When trees, checked against the documented inequalities evaluated directly and recursive all/any",
    text="Generated-input search: every built-in condition is compared with its documented inequality (three-valued oracle; undecided inf-inf cases excluded and counted) on generated histories incl. plateaus, ties, +-inf, windows 0/None/longer than the history and tolerances exactly on the boundary; And/Or/When trees to depth 4 are compared with recursive all/any, info strings must name exactly satisfied leaves, and every leaf is rebuilt from type()/state() and must behave identically. Exploration only: held on all generated cases, no proof of absence.",
    note="Trusted: the harness's reading of each docstring inequality (Python indexing for cost[-g], 'history longer than g' window rule, x-x=0 also for +-inf); numpy; TimeLimits only at 0 s/1e9 s.",
-   design="DESIGN.md section 5, C10"),
+   design="DESIGN.md section 5, C10"), 'C16': dict(
+   technique="property-based testing (Hypothesis @given), one generated family per decorator; oracle = independent membership predicates for each target set, bit-unchanged unselected entries, conforming-input-unchanged and idempotence relations",
+   text="Eight generated families (impose_bounds in all clip/nearest modes with interval lists and dict forms; discrete/integers/rounded/precision; unique/impose_unique; monotonic/sorting; impose_at; impose_as incl. chains and offsets; with_mean/variance/std/spread/normalized; masked/partial/synchronized/clipped/suppressed) over lists and ndarrays of length 1-8 with index selections None/int/negative/tuple/out-of-range: selected entries must land in the target set per a plain-Python predicate, unselected entries stay bit-unchanged, conforming input is returned unchanged, d(d(x)) == d(x) for deterministic transforms (membership only for the randomising ones, RNG seeded from the case). Exploration only.",
+   note="Trusted: the per-decorator predicates (read from the docstrings); math.fsum for statistics (rel 1e-7). Tie directions of nearest-member snapping are not asserted. Eight open known findings (F11b, F31-F37) - see known_findings.json; five further defects found by this check were repaired.",
+   design="DESIGN.md section 5, C16"),
+ 'C17': dict(
+   technique="property-based testing (Hypothesis @given): generated member-constraint sets (compatible, conflicting, cyclic) with recorder callbacks and a counted RNG; oracle = fixed-point test of the returned vector against every member, exact composition identities for couplers, zero-set relations for penalty combinators",
+   text="constraints.and_/or_/not_ over 1-4 idempotent members (pins, clamps, grids, ties; plus a non-idempotent step for or_/not_) with maxiter 1-50, list/ndarray input, exactly-one-callback checks and draw counting for the cycle-breaking path; if onexit fired with v then every member (and_), some member (or_), resp. no member (not_) leaves v unchanged, otherwise onfail fired. inner/outer/additive and their proxies against the composed pure model (exact). coupler.and_/or_/not_ over the eight non-negative penalty types: zero exactly where all/any members are zero, not_ penalises exactly the interior/equality set, default-value identities (sum/min). Exploration only.",
+   note="Trusted: the plain-Python member models. Only the 'success implies fixed point' direction is asserted (as the property states). F13 (false success after randomisation) was found by this check and repaired.",
+   design="DESIGN.md section 5, C17"),
+ 'C19': dict(
+   technique="property-based testing (Hypothesis @given): generated product-measure / scenario shapes; oracle = Python model of the documented parameter layout and point order (itertools.product), explicit math.fsum sums; round-trip (metamorphic) relations compared by value",
+   text="Generated shapes (1-3 factor measures of 1-4 points, unequal sizes, size 1, zero weights, ties, attached values): flatten/load/unflatten round trips, compose/decompose and _pack/_unpack inverses, update() changing exactly the addressed slots, product weights = products of factor weights in the documented first-factor-fastest order, positions = Cartesian product, mass per factor, expect/expect_var/pof/support and per-measure center_mass/range/var/extrema against explicit weighted sums, and the center_mass/range/var setters reaching their value while keeping what impose_* promises. Exploration only.",
+   note="Trusted: itertools/math.fsum model; point order taken from the _pack docstring example. Sums compared with rel 1e-9 + cancellation-aware absolute term; setters rel 1e-7.",
+   design="DESIGN.md section 5, C19"),
 }
 
 NOT_APPLICABLE = {}
